@@ -310,6 +310,12 @@ func runC07(c *Ctx) {
 	ruleDotStructure(c) // error exits keep the automaton state: a reader that has failed does not report end-of-file next time
 	rulePipeClose(c)
 	ruleNoPositiveAfterShortCopy(c)
+	c.R.Rule("R-bdat-size-decimal", "E4", "the chunk size the short-chunk test compares with is the decimal value of the command's first argument", 1)
+	if bi := bdatAnchors(c); bi != nil && bi.parse != nil {
+		pc := callCommon(bi.parse)
+		b, ok := constInt(pc.Args[1])
+		c.R.Ob("(*Conn).handleBdat/size base 10", c.P.InstrPos(bi.parse), ok && b == 10, "the chunk size is not parsed as a decimal number: \"BDAT 010 LAST\" announces ten octets, an octal reading takes eight for the complete chunk and closes the message cleanly")
+	}
 	rulePipeCreatedOnce(c)
 	ruleWriteDeadlineOwner(c)     // a client that stalls in mid-message times out: no reply disarms (or re-arms) the read deadline
 	ruleNoCommandWhileDataOpen(c) // the client never completes a body it failed to copy: textproto ends an open dot-writer on the next command
